@@ -15,5 +15,6 @@ func controlsC10() []Control {
 		{Name: "PlayerPass drops the action event", Expect: "R7", Mutate: replaceIn("(*tableEngine).PlayerPass", "te.emitGamePlayerActionEvent(*te.table.State.LastPlayerGameAction)", "", 0)},
 		{Name: "PlayerCall releases the engine lock early", Expect: "R1", Mutate: replaceIn("(*tableEngine).PlayerCall", "defer te.lock.Unlock()", "te.lock.Unlock()", 0)},
 		{Name: "status playing before the hand started", Expect: "R8", Mutate: replaceIn("(*tableEngine).startGame", "\t// start game\n\tif _, err := te.game.Start(); err != nil {\n\t\treturn err\n\t}\n\n\tte.table.State.Status = TableStateStatus_TableGamePlaying\n", "\tte.table.State.Status = TableStateStatus_TableGamePlaying\n\tif _, err := te.game.Start(); err != nil {\n\t\treturn err\n\t}\n", 0)},
+		{Name: "last action never cleared at round close", Expect: "R9", Mutate: replaceIn("(*tableEngine).updateGameState", "if event == pokerface.GameEvent_RoundClosed {", "if event != pokerface.GameEvent_RoundClosed {", 0)},
 	}
 }
